@@ -24,8 +24,7 @@ VARIABLES case, exp, out
 AllOnes(sh) == [d \in DOMAIN sh |-> IF sh[d] = 0 THEN <<0>> ELSE [j \in 1..sh[d] |-> 1]]
 Single(sh)  == [d \in DOMAIN sh |-> <<sh[d]>>]
 ZeroChunkings(sh) ==
-  UNION { { [base EXCEPT ![d] = z] : z \in WithOneZero(sh[d]), base \in {AllOnes(sh), Single(sh)} }
-          : d \in {d \in DOMAIN sh : sh[d] >= 1} }
+  UNION { { [Single(sh) EXCEPT ![d] = z] : z \in WithOneZero(sh[d]) } : d \in {d \in DOMAIN sh : sh[d] >= 1} }
 ChunkSet(g, sh) == (IF g.allch THEN NDChunkings(sh) ELSE {AllOnes(sh), Single(sh)})
                    \cup (IF g.zero THEN ZeroChunkings(sh) ELSE {})
 ChFor(g, f, sh) == IF f = "d" THEN ChunkSet(g, sh) ELSE {<<>>}
